@@ -397,7 +397,7 @@ func (s *Session) Run() (err error) {
 
 		switch s.getState() {
 		case WaitingLogon:
-			s.LogonSettings = &LogonSettings{
+			settings := &LogonSettings{
 				HeartBtInt:      incomingLogon.HeartBtInt(),
 				EncryptMethod:   incomingLogon.EncryptMethod(),
 				Password:        incomingLogon.Password(),
@@ -411,8 +411,14 @@ func (s *Session) Run() (err error) {
 			}
 
 			if s.side == sideAcceptor {
-				s.LogonSettings.TargetCompID, s.LogonSettings.SenderCompID = s.LogonSettings.SenderCompID, s.LogonSettings.TargetCompID
+				settings.TargetCompID, settings.SenderCompID = settings.SenderCompID, settings.TargetCompID
 			}
+
+			// Senders read the settings under s.mu (see send); publish the
+			// complete new settings under the same lock.
+			s.mu.Lock()
+			s.LogonSettings = settings
+			s.mu.Unlock()
 
 			if ok, tag, reasonCode := s.checkLogonParams(incomingLogon); !ok {
 				s.sendWithErrorCheck(s.MakeReject(reasonCode, tag, incomingLogon.HeaderBuilder().MsgSeqNum()))
